@@ -25,8 +25,9 @@ open GoaktVerif.Model.C07 GoaktVerif.Spec.C07
 /-- the observations the harness prints for a script: after each op, the family and the op's result -/
 def obsRun (f : Family) (ops : List Op) : List (Obs × Res) := (run f ops).map (fun r => (r.1.obs, r.2.1))
 
-/-- every op addresses an existing child -/
-def validOps (n : Nat) (ops : List Op) : Prop := ∀ op ∈ ops, op.idx < n
+/-- every op addresses an existing child and is not a scripted PreStart failure (`F`, harness-only: scripts
+    with PreStart failures are covered by the model and the differential, not by the refinement theorems) -/
+def validOps (n : Nat) (ops : List Op) : Prop := ∀ op ∈ ops, op.idx < n ∧ op.plain = true
 
 instance (n : Nat) (ops : List Op) : Decidable (validOps n ops) := by unfold validOps; infer_instance
 
@@ -42,6 +43,7 @@ theorem hists_length (v : Variant) (opts : List Opt) (h : Hists) (now : Int) (op
   | ping i => rfl
   | reinstate i => rfl
   | age i => simp [judgeStep, ageHists]
+  | failPre i k => rfl
 
 /-- REFINEMENT, one op: whatever the state (within the invariant), the model's reaction to an op is
     what the text prescribes for the configuration — in the `code` reading of the clause the code
@@ -49,7 +51,7 @@ theorem hists_length (v : Variant) (opts : List Opt) (h : Hists) (now : Int) (op
     dispatch on the directive; sibling groups under one-for-all; the budget decision; Resume keeping the
     state; later messages handled (ping); Reinstate. -/
 theorem step_refines_code (opts : List Opt) (f : Family) (h : Hists) (op : Op)
-    (hinv : Inv opts f h) (hv : op.idx < f.cs.length) :
+    (hinv : Inv opts f h) (hv : op.idx < f.cs.length) (hp : op.plain = true) :
     (judgeStep .code opts h (f.now + tick) op f.obs (step f op).1.obs (step f op).2.1).1 = true
     ∧ Inv opts (step f op).1 (judgeStep .code opts h (f.now + tick) op f.obs (step f op).1.obs (step f op).2.1).2 := by
   have hc : f.cs[op.idx]? = some f.cs[op.idx] := by simp [hv]
@@ -90,6 +92,7 @@ theorem step_refines_code (opts : List Opt) (f : Family) (h : Hists) (op : Op)
     simp only [judgeStep]
     refine ⟨?_, h3⟩
     simp [h1, h2]
+  | failPre i k => simp [Op.plain] at hp
 
 /-! ### whole runs -/
 
@@ -111,8 +114,8 @@ theorem run_refines_gen (opts : List Opt) (ops : List Op) (f : Family) (h : Hist
   induction ops generalizing f h with
   | nil => simp [judgeRun, judgeRunWith]
   | cons op ops ih =>
-    have hop : op.idx < f.cs.length := hv op (by simp)
-    obtain ⟨h1, h2⟩ := step_refines_code opts f h op hinv hop
+    have hop : op.idx < f.cs.length := (hv op (by simp)).1
+    obtain ⟨h1, h2⟩ := step_refines_code opts f h op hinv hop (hv op (by simp)).2
     have hlen : (step f op).1.cs.length = f.cs.length := by
       rw [inv_length h2, hists_length, ← inv_length hinv]
     have ih' := ih (step f op).1 _ h2 (by
@@ -143,8 +146,8 @@ theorem cf_eq_specCount (opts : List Opt) (n : Nat) (ops : List Op) (hv : validO
   | nil => intro f h _ _ r hr; simp [run] at hr
   | cons op ops ih =>
     intro f h hinv hv r hr c hc
-    have hop : op.idx < f.cs.length := hv op (by simp)
-    obtain ⟨_, h2⟩ := step_refines_code opts f h op hinv hop
+    have hop : op.idx < f.cs.length := (hv op (by simp)).1
+    obtain ⟨_, h2⟩ := step_refines_code opts f h op hinv hop (hv op (by simp)).2
     have hlen : (step f op).1.cs.length = f.cs.length := by
       rw [inv_length h2, hists_length, ← inv_length hinv]
     simp only [run, List.mem_cons] at hr
@@ -176,6 +179,16 @@ theorem C07_sibling_restart_count_bumped :
     let f1 := (step (Family.init opts 2) (.fail 0 .A)).1
     let f2 := (step f1 (.fail 0 .A)).1
     (f1.cs.map (·.rc)) = [1, 1] ∧ (f2.cs.map (·.rc)) = [2, 2] ∧ (f2.cs.map (·.pre)) = [3, 3] := by decide
+
+/-- finding C07-F3 (model-side witness; replayed on the real code by corpus/C07): a one-for-all restart whose
+    first attempt fails behind the embedded shutdown of a running sibling (its PreStart errors 5 times, which
+    exhausts `init`) and whose retry succeeds leaves that sibling running OUTSIDE the tree, with a restart
+    count that was not bumped (1 instead of 2) -/
+theorem C07_retried_restart_loses_parent :
+    let opts := [Opt.strategy .oneForAll, .directive tyA dRestart, .retry 2 2]
+    let f := (run (Family.init opts 2) [.fail 0 .A, .failPre 1 5, .fail 0 .A]).getLast?.map (·.1)
+    f.map (fun f => f.cs.map (fun c => (c.reg, c.alive, c.pre, c.rc))) = some [(true, true, 3, 2), (false, true, 8, 1)] := by
+  decide
 
 /-- the current code does not satisfy the text -/
 theorem C07_refuted : ¬ C07_full := by
@@ -215,6 +228,7 @@ theorem text_of_code_of_guard (opts : List Opt) (h : Hists) (now : Int) (op : Op
   | ping i => exact hc
   | reinstate i => exact hc
   | age i => exact hc
+  | failPre i k => exact hc
   | fail i k =>
     simp only [judgeStep, Bool.and_eq_true] at hc ⊢
     simp only [stepGuard] at hg
@@ -304,6 +318,6 @@ example :
     (`inv_init`) and, e.g., after a group restart -/
 example : ∃ h, Inv [.strategy .oneForAll, .directive tyA dRestart]
     (step (Family.init [.strategy .oneForAll, .directive tyA dRestart] 2) (.fail 0 .A)).1 h :=
-  ⟨_, (step_refines_code _ _ _ (.fail 0 .A) (inv_init _ 2) (by decide)).2⟩
+  ⟨_, (step_refines_code _ _ _ (.fail 0 .A) (inv_init _ 2) (by decide) rfl).2⟩
 
 end GoaktVerif.C07
